@@ -80,6 +80,15 @@ theorem C03_no_uncovered_calls :
     (∀ c ∈ Jap.Gen.ExcFlow.uncovered .parsePath, c ∈ ["change_to_path_dir", "get_content", "parse_string"]) := by
   decide
 
+/-- add_subcommand copies `exit_on_error` (and the error handler) from the parent parser to the sub-command
+parser, whatever that parser was constructed with: a failure found while a sub-command parser is working is
+reported in the ROOT parser's mode (`effOf` of `Region.subBody` relies on exactly this entry) -/
+theorem C03_subcommand_inherits :
+    "exit_on_error" ∈ tables.subInherited ∧ "_error_handler" ∈ tables.subInherited ∧ subInheritsExit tables = true ∧
+    (∀ eff m, effOf tables eff (.subBody m) = eff) := by
+  refine ⟨by decide, by decide, by decide, ?_⟩
+  intro eff m; cases eff <;> cases m <;> decide
+
 /-- `_check_type` (and `_check_value_key` for plain types) wrap TypeError and ValueError into TypeError -/
 theorem C03_check_type_wraps :
     ∀ w ∈ [Wrapper.checkType, .checkValueKey], ∀ mode ∈ Mode.all, ∀ c ∈ [Exc.TypeError, .ValueError],
@@ -298,7 +307,7 @@ example : routePath tables .yaml true (.body .parseObject) [.applyActions, .chec
     (.exc .OverflowError .clean) = .exit 2 := by decide
 -- a failure inside a sub-command's own parse_args, three levels deep
 example : routePath tables .yaml true (.body .parseArgs)
-    [.knownArgs, .subcmdAction, .body .parseArgs, .knownArgs, .subcmdAction, .body .parseArgs, .common, .validate, .required]
+    [.knownArgs, .subcmdAction, .subBody .parseArgs, .knownArgs, .subcmdAction, .subBody .parseArgs, .common, .validate, .required]
     (.exc .KeyError .clean) = .exit 2 := by decide
 -- help and print_config: status 0 in both modes
 example : ∀ top, routePath tables .yaml top (.body .parseArgs) [.knownArgs, .helpAction] (.exit 0 .clean) = .exit 0 := by decide
@@ -332,6 +341,15 @@ example : routePath (edit .typeImport ⟨[], .same⟩) .yaml false (.body .parse
     [.knownArgs, .typehintAction, .checkType, .adapt, .typeImport] (.exc .ModuleNotFoundError .clean) = .escapes .ModuleNotFoundError := by decide
 example : routePath (edit .floatConv ⟨[], .same⟩) .yaml false (.body .parseArgs)
     [.knownArgs, .typehintAction, .checkType, .adapt, .floatConv] (.exc .OverflowError .clean) = .escapes .OverflowError := by decide
+-- add_subcommand not copying exit_on_error: a sub-command parser built with the default (True) under a root that raises
+example : routePath { tables with subInherited := ["default_env", "parser_mode", "_error_handler", "logger"] } .yaml false
+    (.body .parseArgs) [.knownArgs, .subcmdAction, .subBody .parseArgs, .leftover] (.exit 2 .clean) = .exit 2 := by decide
+example : routePath { tables with subInherited := ["default_env", "parser_mode", "_error_handler", "logger"] } .yaml false
+    (.body .parseArgs) [.knownArgs, .subcmdAction, .subBody .parseArgs, .knownArgs, .typehintAction, .checkType]
+    (.exc .TypeError .clean) = .exit 2 := by decide
+example : routePath tables .yaml false
+    (.body .parseArgs) [.knownArgs, .subcmdAction, .subBody .parseArgs, .knownArgs, .typehintAction, .checkType]
+    (.exc .TypeError .clean) = .argErr := by decide
 example : routePath (edit .pathOwn ⟨[], .same⟩) .yaml false (.body .parsePath) [.pathCtor] (.exc .PathError .clean)
     = .escapes .PathError := by decide
 
